@@ -346,7 +346,7 @@ func (l jsonList) patch(pathBehind, pathAhead Path, before, removeValues, addVal
 
 	// Recursive case
 	if len(rest) > 0 {
-		if int(i) > len(l)-1 {
+		if int(i) < 0 || int(i) > len(l)-1 {
 			return nil, fmt.Errorf("patch index out of bounds: %v", i)
 		}
 		patchedNode, err := l[i].patch(append(pathBehind, n), rest, before, removeValues, addValues, after, strategy)
@@ -365,6 +365,9 @@ func (l jsonList) patch(pathBehind, pathAhead Path, before, removeValues, addVal
 		l = append(l, addValues...)
 		return l, nil
 	}
+	if int(i) < 0 {
+		return nil, fmt.Errorf("patch index out of bounds: %v", i)
+	}
 
 	// Check context before
 	for j, b := range before {
@@ -374,6 +377,8 @@ func (l jsonList) patch(pathBehind, pathAhead Path, before, removeValues, addVal
 			if bIndex == -1 && isVoid(b) {
 				continue
 			}
+			return nil, fmt.Errorf("invalid patch. before context %v out of bounds: %v", b, bIndex)
+		case bIndex > len(l)-1:
 			return nil, fmt.Errorf("invalid patch. before context %v out of bounds: %v", b, bIndex)
 		case !b.Equals(l[bIndex]):
 			return nil, fmt.Errorf("invalid patch. expected %v before. got %v", b, l[bIndex])
@@ -390,6 +395,9 @@ func (l jsonList) patch(pathBehind, pathAhead Path, before, removeValues, addVal
 		}
 		l = append(l[:i], l[i+1:]...)
 		removeValues = removeValues[1:]
+	}
+	if int(i) > len(l) {
+		return nil, fmt.Errorf("patch index out of bounds: %v", i)
 	}
 	l2 := make(jsonList, i)
 	copy(l2, l[:i])
